@@ -1,25 +1,26 @@
-"""Per-property build/run table used by lib/vdriver.py."""
+"""Per-property build/run table used by lib/vdriver.py.  One file per property under
+lib/propdefs/CNN.py; each calls prop(...) and sets TEXT[...] (see C14.py)."""
+import glob
+import os
+
 
 def V(name, flags=(), args=()):
     return {"name": name, "flags": list(flags), "args": list(args)}
 
+
 PLAIN = [V("plain")]
 PLAIN_ASAN = [V("plain"), V("asan")]
+UBSAN = [V("ubsan")]
+UBSAN_ASAN = [V("ubsan"), V("asan")]
 
 PROPS = {}
+TEXT = {}
+
 
 def prop(pid, src, quick, thorough, level="model_checking", **kw):
     PROPS[pid] = dict(src=src, variants={"quick": quick, "thorough": thorough}, level=level, **kw)
 
-prop("C14", "c14.cpp", PLAIN, PLAIN_ASAN,
-     explain="complete sweep of every 3-/2-/1-byte group through the real encoders/decoders against an arithmetic reference",
-     bounds={"quick": "all 2^24 groups, all 2^16+2^8 tails (alone and after a full group), lengths 0..64 x 256 contents, all 2^16 hex pairs",
-             "thorough": "same sweeps plain and under ASan+UBSan, lengths 0..200"})
 
-# ---- manifest texts -------------------------------------------------------------------
-TEXT = {}
-TEXT["C14"] = dict(
-    engine="seqx",
-    technique="bounded-exhaustive enumeration: complete sweep of all 2^24 3-byte groups, all tails, all hex pairs, through the real codecs vs an arithmetic reference",
-    level_text="Every 3-byte group, every 2-/1-byte tail (alone and after a full group) and every 2-byte hex array is encoded and decoded by the real code through every overload and compared with an independent reference that is itself checked against CPython's binascii; longer arrays are covered by a length x content sweep across the SSO limit. This is a complete enumeration of the codec's per-group behaviour, which is all the group loop can depend on.",
-    level_note="Trusts the harness reference (validated by CRC against CPython binascii over the complete domains) and the locality of the 3-byte group loop for arrays longer than the sweep; compiler g++ 12 -O1, ASan+UBSan build in the thorough tier.")
+_here = os.path.dirname(os.path.abspath(__file__))
+for _f in sorted(glob.glob(os.path.join(_here, "propdefs", "C*.py"))):
+    exec(compile(open(_f).read(), _f, "exec"), globals())
